@@ -43,13 +43,24 @@ func randCase(c *Ctx, s string) string {
 	return sb.String()
 }
 
+// configured letters: the expression tokenizer after the user registered Cyrillic and Greek as word
+// start characters ("identifiers may start with any configured letter, Latin or not"); two separate
+// registrations over the built-in 0..0xffff symbol range, so the latest-registration rule matters
+var c13CfgOps = []cfgOp{{k: "D", lo: 0x400, hi: 0x4ff, x: "w"}, {k: "D", lo: 0x370, hi: 0x3ff, x: "w"}}
+var wordStartCfg = []rune("abzAZxy_éÀÿЖцλΔ")
+
 func genLexeme(c *Ctx, kind string) lexeme {
-	expr := kind == "e"
+	expr := kind == "e" || kind == "E"
+	cfg := kind == "E"
 	switch c.Rng.Intn(9) {
 	case 0: // identifier
 		var sb strings.Builder
 		if expr {
-			sb.WriteRune(pick(c, wordStartE))
+			if cfg {
+				sb.WriteRune(pick(c, wordStartCfg))
+			} else {
+				sb.WriteRune(pick(c, wordStartE))
+			}
 			for i := c.Rng.Intn(6); i > 0; i-- {
 				sb.WriteRune(pick(c, wordRestE))
 			}
@@ -153,6 +164,9 @@ func genLexeme(c *Ctx, kind string) lexeme {
 	default: // single-character symbol
 		if expr {
 			rs := []rune("+*%^=<>()[],!-;:&§世Ж")
+			if cfg {
+				rs = []rune("+*%^=<>()[],!-;:&§世→")
+			}
 			return lexeme{string(rs[c.Rng.Intn(len(rs))]), tokenizers.Symbol}
 		}
 		rs := []rune("+*%^=<>()[],!;:&/§")
@@ -211,7 +225,14 @@ func runLexCase(c *Ctx, kind string, lexs []lexeme) {
 	}
 	input := []rune(sb.String())
 	op := tokOpLine(kind, 0, input)
-	ts, st := tokenizeImpl(kind, 0, string(input))
+	var ts []tk
+	var st string
+	if kind == "E" {
+		op = tokcLine("e", 0, c13CfgOps, input)
+		ts, st = tokenizeCfg("e", 0, c13CfgOps, input)
+	} else {
+		ts, st = tokenizeImpl(kind, 0, string(input))
+	}
 	classes := map[int]bool{}
 	for _, l := range lexs {
 		classes[l.class] = true
@@ -253,6 +274,10 @@ func propC13(c *Ctx) {
 	}
 	for i := 0; i < n; i++ {
 		kind := []string{"g", "e"}[i%2]
+		if i%10 == 9 {
+			kind = "E"
+		}
+		sepKind := strings.ToLower(kind)
 		k := 1 + c.Rng.Intn(10)
 		if c.Thorough && c.Rng.Intn(50) == 0 {
 			k = 50 + c.Rng.Intn(200)
@@ -262,7 +287,7 @@ func propC13(c *Ctx) {
 			l := genLexeme(c, kind)
 			if len(lexs) > 0 {
 				prev := lexs[len(lexs)-1]
-				if !separated(kind, prev, l) || c.Rng.Intn(2) == 0 {
+				if !separated(sepKind, prev, l) || c.Rng.Intn(2) == 0 {
 					w := genWhitespace(c)
 					if prev.class == tokenizers.Comment && kind == "g" {
 						w.text = "\n" + w.text // a '#' comment needs a line break
@@ -281,6 +306,9 @@ func propC13(c *Ctx) {
 
 func replayC13(c *Ctx, op string) {
 	// replays re-check model agreement and losslessness only (the lexeme list is not recoverable)
+	if replayTokC(c, op) {
+		return
+	}
 	f := strings.Fields(op)
 	if len(f) == 4 {
 		runC04Case(c, f[1], parseRunes(f[3]))
